@@ -95,6 +95,27 @@ def judge_stream(ctx, data, kind, arrays=True):
                       lambda: {'at': i, 'byte': b, 'msg': mb[:20]})
         out3.extend(new)
     ctx.count('no exception')
+    # the same, polled with get_message() after every byte (most of these polls find nothing) and pending()
+    try:
+        p = Parser()
+        out4 = []
+        for i, b in enumerate(data if (sum(data) + len(data)) % 3 == 0 or kind != 'enum' else ()):
+            p.feed_byte(b)
+            npend = p.pending()
+            taken = 0
+            while True:
+                m = p.get_message()
+                if m is None:
+                    break
+                out4.append(m)
+                taken += 1
+            if taken != npend:
+                ctx.check('same result byte-wise', False, 'get_message-vs-pending', case, {'at': i, 'pending()': npend, 'taken': taken})
+                break
+        ctx.check('same result byte-wise', out4 == out3 or ((sum(data) + len(data)) % 3 != 0 and kind == 'enum'), 'get_message-polling-differs', case,
+                  lambda: {'polled': [m.hex() for m in out4][:8], 'iterated': [m.hex() for m in out3][:8]})
+    except Exception as exc:
+        ctx.check('no exception', False, f'get_message-polling:{type(exc).__name__}', case, f'{type(exc).__name__}: {exc}')
     ctx.check('same result byte-wise', outs[0] == out3 and outs[1] == out3,
               'paths-differ', case,
               lambda: {'parse_all': [m.hex() for m in outs[0]][:8],
